@@ -17,7 +17,8 @@ CHECKS = {
         text='Bounded symbolic execution of the real PlotfileCooker indexing code: every payload word is a symbolic value, '
              'every selector form for fields, level and boxes is applied on each generated structure and each returned element '
              'must be identical to the word at the reference address; the seek/count arithmetic of the three read kernels is '
-             'additionally decided by z3 for symbolic box extents, component counts and offsets.',
+             'additionally decided by z3 for symbolic box extents, component counts and offsets; the selector object between the level header and the '
+             'kernels (LevelDataStream) must hand symbolic byte positions up to 2^40 to the read function unchanged for every form of box selection.',
         note=TRUST + 'Payload identity covers non-finite and denormal values (no arithmetic node between source and result).',
         design='5 C01, 6'),
 }
